@@ -198,7 +198,54 @@ def c10_sweeps(n, seed, procs):
     return dict(evaluations=ev, distinct=len(distinct), failures=fails[:6], samples=samples)
 
 
-ORACLES = dict(c10_examples=c10_examples, c10_refs=c10_refs, c10_equivalent=c10_equivalent, c10_sweeps=c10_sweeps)
+def c10_neighbours(n, seed, procs):
+    """every shipped example away from its suite tuple: other iteration counts (even, odd, not a power of two) and
+    scaled parameters, frozen from the pinned tree in ref_neighbours.json with the claim observed there; the computed
+    value must still be (tight:) the closed form the example returns / (upper:) not above it, and that closed form
+    must be the frozen one"""
+    from examples_run import run_many
+    path = os.path.join(HERE, "ref_neighbours.json")
+    if not os.path.exists(path): return dict(evaluations=0, distinct=0, failures=[], samples=[])
+    tab = json.load(open(path))
+    rnd = random.Random(seed * 911 + 7)
+    idx = list(range(len(tab)))
+    if n < len(tab):
+        # stratified: every example module first, cheapest tuples first inside a module
+        by = {}
+        for i in idx: by.setdefault(tab[i]["module"], []).append(i)
+        mods = sorted(by); rnd.shuffle(mods)
+        idx = []
+        k = 0
+        while len(idx) < n and any(by.values()):
+            m = mods[k % len(mods)]; k += 1
+            if by[m]: idx.append(by[m].pop(rnd.randrange(len(by[m]))))
+        idx = sorted(idx)
+    jobs = [(tab[i]["module"], tab[i]["func"], tab[i]["args"]) for i in idx]
+    res = run_many(jobs, procs)
+    fails, samples, distinct = [], [], set()
+    for i, r in zip(idx, res):
+        t = tab[i]; name = t["module"].split("examples.")[-1]
+        desc = dict(example=name, args=t["args"], claim=t["claim"])
+        distinct.add(name + json.dumps(t["args"], sort_keys=True))
+        if r["err"]:
+            if "SolverError" in r["err"]: continue
+            fails.append(dict(what="example %s raises %s at a tuple it accepted on the pinned tree" % (name, r["err"]), oracle="c10_neighbours", input=desc, tags=["c10"])); continue
+        p, th = r["pepit"], r["theory"]
+        if th is None or not _close(th, t["baseline_theory"], rel=1e-9, ab=1e-12):
+            fails.append(dict(what="closed form reported by %s is %r; the published/frozen value at this tuple is %r" % (name, th, t["baseline_theory"]),
+                              oracle="c10_neighbours", input=desc, observed=th, expected=t["baseline_theory"], tags=["c10"]))
+            th = t["baseline_theory"]
+        if p is None:
+            fails.append(dict(what="example %s returns no value; closed form %r" % (name, th), oracle="c10_neighbours", input=desc, tags=["c10"])); continue
+        if t["claim"] == "tight" and not _close(p, th, rel=2e-3, ab=4e-6):
+            fails.append(dict(what="%s: computed %.9g differs from the tight closed form %.9g" % (name, p, th), oracle="c10_neighbours", input=desc, observed=p, expected=th, tags=["c10"]))
+        if t["claim"] == "upper" and p > th * (1 + 2e-3) + 4e-6:
+            fails.append(dict(what="%s: computed %.9g exceeds the stated upper bound %.9g" % (name, p, th), oracle="c10_neighbours", input=desc, observed=p, expected=th, tags=["c10"]))
+        if len(samples) < 3: samples.append(dict(desc, pepit=p, closed_form=th))
+    return dict(evaluations=len(idx), distinct=len(distinct), failures=fails[:6], samples=samples)
+
+
+ORACLES = dict(c10_examples=c10_examples, c10_refs=c10_refs, c10_equivalent=c10_equivalent, c10_sweeps=c10_sweeps, c10_neighbours=c10_neighbours)
 try:
     import oracles5
     ORACLES.update(oracles5.ORACLES)
